@@ -2445,6 +2445,8 @@ where
                                     tree_bin.remove_tree_node(p, true, guard, &self.collector)
                                 };
                                 if need_to_untreeify {
+                                    #[cfg(feature = "verif")]
+                                    crate::verif::hit(crate::verif::WIN_BEFORE_UNTREEIFY_STORE, 0, bini);
                                     let linear_bin = self.untreeify(
                                         tree_bin.first.load(Ordering::SeqCst, guard),
                                         guard,
@@ -2780,6 +2782,8 @@ where
                                 tree_bin.remove_tree_node(p, false, guard, &self.collector)
                             };
                             if need_to_untreeify {
+                                #[cfg(feature = "verif")]
+                                crate::verif::hit(crate::verif::WIN_BEFORE_UNTREEIFY_STORE, 0, bini);
                                 let linear_bin = self
                                     .untreeify(tree_bin.first.load(Ordering::SeqCst, guard), guard);
                                 t.store_bin(bini, linear_bin);
